@@ -455,12 +455,35 @@ def r8_once(c, facts):
         c.ok(R, {'push_scope': 'the scope id derives from the instantiation'})
 
 
+def r9_mark_monotone(c, facts, rule='C09.R9'):
+    """a declaration marked recursive by the cycle check of *any* module that sees it stays marked: the mark is what makes
+    eval_declaration cut the recursion, and a module's definition graph also contains the imported declarations it uses"""
+    R = c.rule(rule, 'MARK-MONOTONE: Core.is_recursive is set by cycles_check and never cleared')
+    writers = {}
+    for fn in sorted(facts.fns.values(), key=lambda f: f.qname):
+        if not fn.mir:
+            continue
+        for b, blk in fn.blocks():
+            for st in blk['stmts']:
+                if st['s'] == 'assign' and st['place']['proj'] and MF.field_path(st['place'])[-1:] == ['is_recursive']:
+                    val = st['rv'].get('op', {}).get('val') if st['rv']['r'] == 'use' else None
+                    writers.setdefault(facts.home(fn).qname, set()).add(val)
+    c.floor(R, 'functions that write Core.is_recursive', len(writers), 1)
+    bad = {q: v for q, v in writers.items() if not (P.name_is(q, 'typecheck::cycles_check') and v <= {'1'})}
+    if bad:
+        c.bad(R, 'recursion-mark-written-by:%s' % ','.join(sorted(x.split('::')[-1] for x in bad)), '%s write(s) Core.is_recursive (values %s): a mark set while another module was checked can be lost, and the declaration is then inlined without end' % (sorted(bad), {k: sorted(str(x) for x in v) for k, v in bad.items()}))
+    else:
+        c.ok(R, {'writers': sorted(writers)})
+
+
 def run(c, facts):
+    c.run(r9_mark_monotone, facts)
     c.run(r8_once, facts)
     import c03
     import c08 as _c08
     R7 = c.rule('C09.R7', 'INNERMOST: the binder of a `rec` shadows a declaration of the same name, so the uses inside it are recursion points and not references to something else (shared with C08.R1)')
     c.shared(R7, _c08.r1_innermost, 'C08.R1', facts)
+    c.shared(R7, _c08.r3_eager, 'C08.R3', facts)
     R6 = c.rule('C09.R6', 'COMPONENT-HELD: the component a recursion point refers to is registered under the name the $ref uses (shared with C03.R1)')
     c.shared(R6, c03.r1_ref_close, 'C03.R1', facts)
     c.run(r5_recursion_is_schema, facts)
